@@ -74,7 +74,9 @@ static Token *preprocess2(Token *tok);
 static Macro *find_macro(Token *tok);
 
 static bool is_hash(Token *tok) {
-  return tok->at_bol && equal(tok, "#");
+  // A '#' produced by macro expansion never starts a directive
+  // [https://www.sigbus.info/n1570#6.10.3.4p3].
+  return tok->at_bol && !tok->origin && equal(tok, "#");
 }
 
 // Some preprocessor directives such as #include allow extraneous
